@@ -534,6 +534,10 @@ class KTHierarchyPropagator:
         """
         rhot = DensityMatrixEvolution(timeaxis=self.timeaxis, rhoi=rhoi)
         
+        # every propagation starts from an empty hierarchy; auxiliary
+        # operators left from a previous run must not leak into this one
+        self.hy.reset_ados()
+        
         if free_hierarchy:
             
             # first act with lifting superoperators
